@@ -577,7 +577,12 @@ pub mod inner {
         where
             T: Clone,
         {
-            if self.is_contiguous() {
+            let (w, h) = self.dims;
+            // The fast path is only valid if the view covers all of its
+            // backing slice
+            if self.is_contiguous()
+                && self.data.len() == w as usize * h as usize
+            {
                 self.data.fill(val);
             } else {
                 self.rows_mut()
